@@ -34,6 +34,7 @@ def simple_word_splitter(text: str) -> list[str]:
 # to avoid conflicts with real content.
 _PLACEHOLDER_PREFIX = "\x00AC"
 _PLACEHOLDER_SUFFIX = "\x00"
+_PLACEHOLDER_RE = re.compile(re.escape(_PLACEHOLDER_PREFIX) + r"(\d+)" + re.escape(_PLACEHOLDER_SUFFIX))
 
 
 def _extract_atomic_constructs(text: str) -> tuple[dict[int, str], str]:
@@ -65,13 +66,13 @@ def _restore_atomic_constructs(tokens: list[str], construct_map: dict[int, str])
     """
     Restore original constructs from placeholders in token list.
     """
-    result: list[str] = []
-    for token in tokens:
-        for idx, construct in construct_map.items():
-            placeholder = f"{_PLACEHOLDER_PREFIX}{idx}{_PLACEHOLDER_SUFFIX}"
-            token = token.replace(placeholder, construct)
-        result.append(token)
-    return result
+
+    # One left-to-right pass: replacing the placeholders one index after the other could find
+    # a false one made of the end of a placeholder, text like `AC0` and the start of the next.
+    def restore(match: re.Match[str]) -> str:
+        return construct_map.get(int(match.group(1)), match.group(0))
+
+    return [_PLACEHOLDER_RE.sub(restore, token) for token in tokens]
 
 
 class _HtmlMdWordSplitter:
